@@ -131,6 +131,51 @@ func runC44(c *core.Ctx) {
 	}
 	c.Check(!dup && len(cats) == 7, "C44/each-peer-at-most-once", "ComputeEvictionList/each-category-once", ce.Pos(), fmt.Sprintf("evict is applied once to each of the %d categories", len(cats)),
 		fmt.Sprintf("categories passed to evict: %v (each of the 7 categories must be evicted from exactly once)", cats))
+	// quota cascade wiring: each category is measured against ITS OWN limit (plus spare slots handed down),
+	// the number kept for a category is what evict is given for that category, and a spare-slot count is handed on at most once
+	wantMax := map[string]string{"intraShardValidators": "maxIntraShardValidators", "crossShardValidators": "maxCrossShardValidators", "intraShardObservers": "maxIntraShardObservers",
+		"crossShardObservers": "maxCrossShardObservers", "seeders": "maxSeeders", "fullHistoryObservers": "maxFullHistoryObservers", "unknown": "maxUnknown"}
+	keepOf := map[string]ssa.Value{}
+	spareUses := map[ssa.Value]int{}
+	for _, in := range callsMatching(ce, pkg, "", "computeUsedAndSpare") {
+		call := in.(*ssa.Call)
+		// category measured: len(peerDistances[cat])
+		cat := ""
+		for v := range core.BackwardReachPure(call.Call.Args[0]) {
+			if lk, ok := v.(*ssa.Lookup); ok && lk.X == split {
+				cat = catName(lk.Index)
+			}
+		}
+		var maxFields []string
+		for _, v := range arithOperands(call.Call.Args[1]) {
+			if _, f := core.FieldLoad(v); f != nil && len(f.Name()) > 3 && f.Name()[:3] == "max" && f.Name() != "maxPeerCount" {
+				maxFields = append(maxFields, f.Name())
+			}
+			if ex, ok := v.(*ssa.Extract); ok && ex.Index == 1 {
+				if c2, ok := ex.Tuple.(*ssa.Call); ok && core.CallDesc(&c2.Call).Name == "computeUsedAndSpare" {
+					spareUses[ex]++
+				}
+			}
+		}
+		sort.Strings(maxFields)
+		okMax := len(maxFields) == 1 && maxFields[0] == wantMax[cat]
+		c.Check(okMax, "C44/quota-wiring", "ComputeEvictionList/limit-of-"+cat, in.Pos(), "the "+cat+" list is measured against "+wantMax[cat],
+			fmt.Sprintf("the %s list is measured against %v instead of its own limit %s: that category can exceed its limit", cat, maxFields, wantMax[cat]))
+		keepOf[cat] = core.ResultOf(call, 0)
+	}
+	for sp, n := range spareUses {
+		c.Check(n <= 1, "C44/quota-wiring", "ComputeEvictionList/spare-handed-on-once@"+sp.Name(), sp.Pos(), "a spare-slot count is consumed by at most one later category",
+			"the same spare-slot count is added to the limits of more than one category: the kept connections can exceed the target peer count")
+	}
+	for _, in := range callsMatching(ce, pkg, "", "evict") {
+		cc := core.CallOf(in)
+		if lk, ok := cc.Args[0].(*ssa.Lookup); ok {
+			cat := catName(lk.Index)
+			c.Check(keepOf[cat] != nil && cc.Args[1] == keepOf[cat], "C44/quota-wiring", "ComputeEvictionList/evict-"+cat, in.Pos(), "evict keeps the number computed for this category",
+				"evict("+cat+", …) is not given the number of peers computed for that category")
+		}
+	}
+	c.Floor("C44/quota-wiring", 14)
 	// the result is built only from evict results
 	okRes := true
 	for _, r := range core.Returns(ce) {
@@ -156,4 +201,17 @@ func runC44(c *core.Ctx) {
 		}
 	}
 	c.Check(okRes, "C44/eviction-from-given-list-only", "ComputeEvictionList/result-from-evict", ce.Pos(), "the proposed list is assembled from evict(...) results only", "something other than an evict(...) result is appended to the proposed eviction list")
+}
+
+// arithOperands returns the leaves of an arithmetic expression (through +,-,*,/ and conversions only).
+func arithOperands(v ssa.Value) []ssa.Value {
+	switch x := v.(type) {
+	case *ssa.BinOp:
+		return append(arithOperands(x.X), arithOperands(x.Y)...)
+	case *ssa.Convert:
+		return arithOperands(x.X)
+	case *ssa.ChangeType:
+		return arithOperands(x.X)
+	}
+	return []ssa.Value{v}
 }
